@@ -8,6 +8,7 @@ import (
 	"path/filepath"
 	"sort"
 	"strings"
+	"time"
 
 	"github.com/itchio/lake/pools/fspool"
 	"github.com/itchio/wharf/pwr"
@@ -272,7 +273,10 @@ func c05Run(c lib.Case, env *lib.Env) lib.Result {
 	ffCtx := &pwr.ValidatorContext{FailFast: true, Consumer: lib.Quiet()}
 	wp := filepath.Join(env.Scratch, "wounds.pww")
 	vctx := &pwr.ValidatorContext{WoundsPath: wp, Consumer: lib.Quiet()}
+	var sibFF, sibV func() error
 	if s.Sibling {
+		// the consumer goroutines of the calls on the sibling build stay parked (bounded) until the judged calls run
+		defer lib.SetHook(nil)
 		sib := lib.NewBuild()
 		for _, e := range ref.Sorted() {
 			switch e.Kind {
@@ -294,18 +298,37 @@ func c05Run(c lib.Case, env *lib.Env) lib.Result {
 			res.Inconclusive("sign sibling: " + err.Error())
 			return res
 		}
+		newHold := func() *lib.Sched {
+			h := lib.NewSched("none", 0)
+			h.HoldPoint, h.HoldMax = "val-consumer-returned", 3*time.Second
+			lib.SetHook(h)
+			return h
+		}
+		// wounds-file context: sibling first; its judged call follows further down (holdV is released there)
+		holdF := newHold()
 		if err := ffCtx.Validate(context.Background(), sibDir, sibSig); err != nil {
 			res.Violate("failfast-rejects-valid", desc, "pristine sibling build: "+err.Error())
 		}
-		if err := vctx.Validate(context.Background(), sibDir, sibSig); err != nil {
-			res.Violate("validate-error-on-valid", desc, "pristine sibling build: "+err.Error())
+		sibFF = func() error {
+			defer holdF.Finish()
+			return ffCtx.Validate(context.Background(), dir, sig)
 		}
-		os.Remove(wp)
+		sibV = func() error {
+			holdV := newHold()
+			defer holdV.Finish()
+			if err := vctx.Validate(context.Background(), sibDir, sibSig); err != nil {
+				res.Violate("validate-error-on-valid", desc, "pristine sibling build: "+err.Error())
+			}
+			os.Remove(wp)
+			return vctx.Validate(context.Background(), dir, sig)
+		}
 		res.Add("cases_with_validator_contexts_used_before_on_a_sibling_build", 1)
 	}
 	// fail-fast mode
-	ffErr := ffCtx.Validate(context.Background(), dir, sig)
-	if !s.Sibling {
+	var ffErr error
+	if s.Sibling {
+		ffErr = sibFF()
+	} else {
 		ffErr = pwr.AssertValid(dir, sig)
 	}
 	res.Add("failfast_validations", 1)
@@ -316,7 +339,12 @@ func c05Run(c lib.Case, env *lib.Env) lib.Result {
 		res.Violate("failfast-rejects-valid", desc, ffErr.Error())
 	}
 	// wounds-file mode
-	verr := vctx.Validate(context.Background(), dir, sig)
+	var verr error
+	if s.Sibling {
+		verr = sibV()
+	} else {
+		verr = vctx.Validate(context.Background(), dir, sig)
+	}
 	res.Add("wounds_validations", 1)
 	if verr != nil {
 		// "not declared valid": coverage clauses are not evaluated for this case
